@@ -111,6 +111,21 @@ func init() {
 		if os.Getenv("FV_CHILD") != "" {
 			return wsgChild(a[0])
 		}
+		// The gate fixes the schedule, so a deadlock the library has under it shows on every attempt.  A child that does not
+		// finish once (seen once in some thousand runs on a loaded machine, never reproduced) is tried again; only a scenario
+		// that hangs three times in a row is reported as a hang.
+		if os.Getenv("FV_WSG_ATTEMPT") == "" {
+			res := ""
+			for attempt := 1; attempt <= 3; attempt++ {
+				os.Setenv("FV_WSG_ATTEMPT", fmt.Sprint(attempt))
+				res = ops["WSG"](a)
+				os.Unsetenv("FV_WSG_ATTEMPT")
+				if res != "hang" && res != "gate-not-reached" {
+					break
+				}
+			}
+			return res
+		}
 		cmd := exec.Command(os.Args[0], "replay")
 		cmd.Env = append(os.Environ(), "FV_CHILD=1")
 		cmd.Stdin = strings.NewReader("1 - WSG " + a[0] + "\n")
